@@ -45,6 +45,44 @@ class Token:
         return f"<{s.name}>"
 
 
+class ObsV:
+    """a value derived from what an extraction observed (the error list, the diagnostics object, ...)"""
+
+    def __init__(s, kind, obs):
+        s.kind = kind
+        s.obs = obs
+
+    def __repr__(s):
+        return f"<{s.kind} of {[o[0] for o in s.obs]}>"
+
+
+class ObsStr(StrV):
+    """a string rendered from an observation (serialised diagnostics, emitted code)"""
+    __slots__ = ('kind', 'obs')
+
+    def __init__(s, kind, obs):
+        StrV.__init__(s, text=None, id=None)
+        s.kind = kind
+        s.obs = obs
+
+    def __repr__(s):
+        return f"<{s.kind} text of {[o[0] for o in s.obs]}>"
+
+
+class JsV:
+    def __init__(s, v):
+        s.v = v
+
+
+class HasherV:
+    def __init__(s):
+        s.items = []
+
+
+def errors_empty(obs):
+    return not any(o[0].endswith('-missing') or o[0].endswith('-unresolved') for o in obs)
+
+
 class World:
     """the host: a disk (file -> content StrV) and bookkeeping for roles / replays"""
 
@@ -54,6 +92,7 @@ class World:
         s.step = -1
         s.contents = []      # z3 ids in creation order
         s.reads = 0
+        s.emitted = []
 
 
 def keyof(e, st, v):
@@ -91,7 +130,7 @@ class SessionEngine(Engine):
         for k in ('man.get_or_fetch_file', 'man.resolve_import', 'resolver.resolve_import'):
             if k not in self.find:
                 raise Inconclusive('function not found in the MIR dump: ' + k)
-        for k in ('update_file_content_inner', 'run_extraction'):
+        for k in ('update_file_content', 'bundle_to_diagnostics', 'bundle_to_string_v2'):
             if not ix.has(k):
                 raise Inconclusive('function not found in the MIR dump: ' + k)
 
@@ -166,7 +205,7 @@ class SessionEngine(Engine):
         if re.match(r'^(std::cell::)?RefCell::<.*>::(borrow_mut|borrow)$', n):
             e.note('RefCell::borrow_mut = the cell itself')
             return argv[0]
-        if re.match(r'^<.*(LockGuard|RefMut|Ref)<.*> as (DerefMut|Deref)>::(deref_mut|deref)$', n):
+        if re.match(r'^<.*(LockGuard|ReadGuard|WriteGuard|RefMut|Ref)<.*> as (DerefMut|Deref)>::(deref_mut|deref)$', n):
             e.note('RefMut::deref_mut')
             g = e.load(st, argv[0])
             if not isinstance(g, Ptr):
@@ -177,6 +216,61 @@ class SessionEngine(Engine):
         if re.match(r'^<log::Level as PartialOrd<.*>>::le$', n) or n in ('max_level', 'log::max_level'):
             e.note('logging disabled')
             return False
+        # ---------------------------------------------------------------- results of an extraction, as far as the session code touches them
+        if n == 'parse_entrypoints':
+            e.note('parse_entrypoints stub')
+            return Adt('EntryPoints', None, [strv(e, st, argv[0]), StrV(text='settings:' + str(strv(e, st, argv[1]).s))])
+        if re.match(r'^Vec::<(beff_core::diag::)?DiagnosticInformation>::(is_empty|len)$', n):
+            v = deref_all(e, st, argv[0])
+            if not isinstance(v, ObsV):
+                raise Unmodelled(f'errors of {v!r}')
+            e.note('errors.is_empty() = the observation has no missing / unresolved item')
+            return errors_empty(v.obs) if n.endswith('is_empty') else (0 if errors_empty(v.obs) else 1)
+        if re.match(r'^<Vec<(beff_core::diag::)?DiagnosticInformation> as Deref>::deref$', n):
+            return deref_all(e, st, argv[0])
+        if re.match(r'^(beff_core::wasm_diag::)?WasmDiagnostic::from_diagnostics$', n):
+            e.note('WasmDiagnostic::from_diagnostics = function of the observation')
+            v = deref_all(e, st, argv[0])
+            if not isinstance(v, ObsV):
+                raise Unmodelled(f'from_diagnostics of {v!r}')
+            return ObsV('diag', v.obs)
+        if re.match(r'^serde_json::to_string::<.*>$', n):
+            e.note('serde_json::to_string = function of its argument')
+            v = deref_all(e, st, argv[0])
+            if isinstance(v, ObsV):
+                return Adt('Result', 'Ok', [ObsStr('json:' + v.kind, v.obs)])
+            if isinstance(v, StrV):
+                return Adt('Result', 'Ok', [v])
+            raise Unmodelled(f'serde_json::to_string of {v!r}')
+        if re.match(r'^(beff_core::print::)?printer::<impl ParserExtractResult>::emit_code$', n) or n.endswith('ParserExtractResult>::emit_code'):
+            e.note('emit_code = function of the observation')
+            v = deref_all(e, st, argv[0])
+            return Adt('Result', 'Ok', [ObsStr('code', v.fields[0].obs)])
+        if re.match(r'^(wasm_bindgen::)?JsValue::from_str$', n):
+            return JsV(strv(e, st, argv[0]))
+        if re.match(r'^(wasm_bindgen::)?JsValue::undefined$', n):
+            return JsV(None)
+        if n == 'emit_diagnostic':
+            e.note('host emit_diagnostic')
+            self.world.emitted.append(argv[0])
+            return UNIT
+        # ---------------------------------------------------------------- hashing (collision-free idealisation)
+        if re.match(r'^(std::hash::|std::collections::hash_map::)?DefaultHasher::new$', n):
+            e.note('DefaultHasher = collision-free fingerprint of what was written')
+            return HasherV()
+        if re.match(r'^<(str|String|std::string::String|BffFileName) as Hash>::hash::<.*>$', n):
+            h = deref_all(e, st, argv[1])
+            v = strv(e, st, argv[0])
+            h.items.append(v)
+            return UNIT
+        if re.match(r'^<(std::hash::|std::collections::hash_map::)?DefaultHasher as Hasher>::finish$', n):
+            h = deref_all(e, st, argv[0])
+            if len(h.items) != 1:
+                raise Unmodelled('fingerprint of several items')
+            v = h.items[0]
+            if v.id is not None:
+                return z3.ZeroExt(56, v.id)
+            return z3.BitVecVal(0x100 + (hash(v.s) % 100000), 64)
         # ---------------------------------------------------------------- host imports
         if n == 'read_file_content':
             e.note('host read_file_content = current disk content')
@@ -242,7 +336,7 @@ class SessionEngine(Engine):
                     fetch(strv(self, st, r.fields[0]).s, 'imptype')
                 else:
                     obs.append(('imptype-unresolved', None, None))
-        return obs
+        return Adt('ParserExtractResult', None, [ObsV('errors', obs)] + [ObsV('result', obs) for _ in range(5)])
 
 
 def make_engine():
@@ -262,9 +356,26 @@ def new_session(e, st):
 
 
 def rebuild(e, st, session):
+    """what the host does on every (re)build, through the public entry points: bundle_to_diagnostics, then bundle_to_string_v2"""
     e.bundler = session
-    entry = Adt('EntryPoints', None, [StrV(text=ENTRY), Token('settings')])
-    return e.call_fn(st, e.ix.get('run_extraction'), [entry])
+    e.world.emitted = []
+    out = []
+
+    def flat(prefix, js):
+        if not isinstance(js, JsV):
+            raise Unmodelled(f'entry point returned {js!r}')
+        if js.v is None:
+            out.append((prefix + ':undefined', None, None))
+        elif isinstance(js.v, ObsStr):
+            out.append((prefix + ':' + js.v.kind, None, None))
+            out.extend((prefix + ':' + t, c, m) for t, c, m in js.v.obs)
+        else:
+            out.append((prefix + ':text', None, None))
+    flat('diag', e.call_fn(st, e.ix.get('bundle_to_diagnostics'), [StrV(text=ENTRY), StrV(text='{}')]))
+    flat('code', e.call_fn(st, e.ix.get('bundle_to_string_v2'), [StrV(text=ENTRY), StrV(text='{}')]))
+    for x in e.world.emitted:
+        flat('emit', x)
+    return out
 
 
 STEP_KINDS = ['rebuild', 'update-entry', 'update-dep', 'create-dep', 'create-entry']
@@ -312,7 +423,7 @@ def run_history(e, st, k, vacuity=False):
             events.append((kind, f, c))
             if kind.startswith('update'):
                 e.bundler = session
-                e.call_fn(st, e.ix.get('update_file_content_inner'), [StrV(text=f), c])
+                e.call_fn(st, e.ix.get('update_file_content'), [StrV(text=f), c])
     return events, None
 
 
@@ -352,9 +463,11 @@ def role_of(v):
     for ev in v['events']:
         if ev[0] != 'rebuild':
             last_update[ev[1]] = ev
+    def strip(o):
+        return (o[0].split(':', 1)[1] if ':' in o[0] else o[0], o[1], o[2])
     for i in range(max(len(obs), len(fresh))):
-        a = obs[i] if i < len(obs) else ('nothing', None, None)
-        b = fresh[i] if i < len(fresh) else ('nothing', None, None)
+        a = strip(obs[i]) if i < len(obs) else ('nothing', None, None)
+        b = strip(fresh[i]) if i < len(fresh) else ('nothing', None, None)
         if a[0] == b[0] and (a[1] is None or not z3.is_true(model.eval(a[1] != b[1], model_completion=True))):
             continue
         f = ENTRY if a[0].split('-')[0] == 'entry' else DEP
@@ -371,7 +484,7 @@ def role_of(v):
             meta = a[2] if a[0] == 'import-unresolved' else None
             if meta is None:
                 for o in obs:
-                    if o[0] == 'entry':
+                    if o[0].endswith(':entry'):
                         meta = o[2]
             kind = 'imptype' if 'imptype' in (a[0] + b[0]) else 'import'
             when = 'unknown'
